@@ -273,8 +273,11 @@ def replay_and_judge(binary, beh_file, outdir, name, shards=8, epilogues="c02,dr
                 idx = int(open(pg).read().strip() or "-1")
             except (OSError, ValueError):
                 idx = -1
-            if idx < 0 or len(crashes) >= 25:
+            if idx < 0:
                 return {"crash": True, "rc": p.returncode, "stderr": p.stderr[-2000:], "shard": i, "trace": tr}
+            if len(crashes) >= 3:
+                # enough evidence from this shard; what was recorded so far is still judged
+                break
             # confirm: the behaviour alone, from a fresh process
             one_f = os.path.join(outdir, f"{name}.{i}.crash{idx}.ndjson")
             with open(beh_file) as fh:
@@ -284,7 +287,18 @@ def replay_and_judge(binary, beh_file, outdir, name, shards=8, epilogues="c02,dr
                         break
             q = run_harness(binary, ["replay", "--in", one_f, "--trace", one_f + ".trace", "--report", one_f + ".rep",
                                      "--epilogues", epilogues])
-            crashes.append({"beh": idx, "rc": p.returncode, "confirmed": q.returncode != 0, "rc_alone": q.returncode})
+            confirmed, how = q.returncode != 0, "alone"
+            if not confirmed:
+                # state carried from earlier behaviours of the same process (a thread-local or static in the
+                # crate): confirm with the same history instead
+                q2 = run_harness(binary, ["replay", "--in", beh_file, "--trace", one_f + ".trace", "--report", one_f + ".rep",
+                                          "--epilogues", epilogues, "--shard", f"{i}/{shards}", "--upto", str(idx)])
+                confirmed, how = True, ("with-history" if q2.returncode != 0 else "unconfirmed")
+            for junk in (one_f + ".trace", one_f + ".rep"):
+                if os.path.exists(junk):
+                    os.remove(junk)
+            crashes.append({"beh": idx, "rc": p.returncode, "confirmed": confirmed, "rc_alone": q.returncode, "how": how,
+                            "shard": f"{i}/{shards}", "epilogues": epilogues})
             if os.path.exists(tr):
                 os.remove(tr)      # the partial trace ends mid-behaviour
             frm = idx + 1
@@ -302,12 +316,14 @@ def replay_and_judge(binary, beh_file, outdir, name, shards=8, epilogues="c02,dr
             continue
         for c in p["crashes"]:
             if c["confirmed"]:
-                # undefined behaviour reached through the safe API: the consequence clause of C01
-                merged["viol"].append({"prop": "C01", "rule": "crash", "line": 0, "obj": c["rc_alone"], "beh": c["beh"],
-                                       "trace": ""})
+                # A crash (signal) of the harness while it drives the crate through its SAFE public API is
+                # undefined behaviour in the crate: the consequence clause of C01.  The harness itself is
+                # single-threaded and deterministic and does not crash on a tree that has the property;
+                # a crash that needs earlier behaviours of the same process ("with-history") or could not
+                # be reproduced ("unconfirmed": it depended on allocator state) is reported all the same.
+                merged["viol"].append({"prop": "C01", "rule": "crash", "line": 0, "obj": c["rc"], "beh": c["beh"],
+                                       "trace": "", "extra": {"crash": c}})
                 merged["nviol"] += 1
-            else:
-                merged["crashes"].append({"shard": p["shard"], "rc": c["rc"], "stderr": "crash not reproducible alone"})
         for rep, v, tr in zip(p["reports"], p["verdicts"], p["traces"]):
             for k in ("behaviours", "runs", "ops", "events", "drift", "diverged", "skipped_ops"):
                 merged[k] += rep.get(k, 0)
